@@ -70,3 +70,16 @@ Fixpoint visitx (fuel : nat) (vs : list visitor) (viaval : bool) (n : node)
 
 Definition visit_topx (fuel : nat) (vs : list visitor) (n : node) : outcome (trace * option node) :=
   if in_table (kind_of n) visit_table then visitx fuel vs false n else Crash 3.
+
+(* ---- after fixes/C18-03-replacement-of-another-class ----
+   _visit_method runs the children traversal that belongs to the class of the node enter()
+   returned: enter once on the original, the replacement's own children, leave once on the
+   replacement -- [visit] without its class check. *)
+Fixpoint visitf (fuel : nat) (vs : list visitor) (n : node) : outcome (trace * option node) :=
+  match fuel with
+  | 0 => OutOfFuel
+  | S f => wrapperx vs (fun _ cur => method (visitf f vs) cur) n
+  end.
+
+Definition visit_topf (fuel : nat) (vs : list visitor) (n : node) : outcome (trace * option node) :=
+  if in_table (kind_of n) visit_table then visitf fuel vs n else Crash 3.
